@@ -9,12 +9,16 @@ that `GroupActivityCoefficients.__new__` built for the chemical tuple are dumped
 to the Lean model (lean/ThermoVerif/Model/Unifac.lean, Driver/C16.lean) as parameters.
 
 Case language (case.ops):
-  obj <U|D|N|I> <chem,chem,...>        make the model object for that tuple (→ driver `tab …`)
+  obj <U|D|N|I> <chem,chem,...>        make the model object for that tuple (→ driver `tab …`); `Name~` is a second Chemical
+                                       object with the same ID and no group data
+  keepcache                            (first op) do not empty the classes' instance caches before this case
+  regroup <chem> clear|restore         edit the chemical's group data (only generated with VERIF_C16_GROUP_EDITS=1)
   new <csv>                            caller's float ndarray                → id
   newt <i8|i4|f4|f8s|f8ro> <csv>       caller's ndarray in another representation (int64, int32, float32, strided float64
                                        view, read-only float64) holding these values → id   (driver: `newo` / `new`)
   call nd <id> <T> | call seq <csv> <T>   Gamma(x, T)
   f <id> <T>                           Gamma.f(x, T, *Gamma.args)
+                                       (call / f take an optional last token Ti | Tn | T4: T passed as int, np.float64, np.float32)
   gd <csv x> <T> <csv d> <h>           Gibbs–Duhem probe: Gamma at x±h·d (two `call seq` lines for the model)
   ac <csv x_sub> <T>                   Gamma.activity_coefficients(x_sub, T): the kernels without gather/scatter
   gdac <csv x_sub> <T> <csv d> <h>     Gibbs–Duhem probe through activity_coefficients (two `ac` lines for the model)
@@ -37,7 +41,9 @@ RULE = ('a case = one set of 2-6 chemicals (0-2 of them without functional group
         '(all permutations up to 4 chemicals in the thorough tier, sampled otherwise) at the correspondingly permuted '
         'compositions; further model objects over the same members-with-groups in the same relative order with the members '
         'without groups dropped / added / in front / in between / behind (each case starts from empty instance caches, so the '
-        'history of constructions is the one written in the case); Gibbs-Duhem probes by central differences along random simplex directions at interior points. '
+        'history of constructions is the one written in the case -- except in the quarter of the cases that start with `keepcache`); '
+        'a second model class built for the same tuple before / between constructions of the first; the tuple with one member replaced '
+        'by a same-ID chemical object without group data; T as int / NumPy scalar; positive multiples of simplex points (correspondence only); Gibbs-Duhem probes by central differences along random simplex directions at interior points. '
         'non-trivial = the case evaluated a group-contribution object (not the ideal fallback); distinct = distinct op lists')
 ASSUMPTIONS = [
     'group tables (counts, Q, R, interaction parameters) are parameters: the real arrays built by '
@@ -51,7 +57,15 @@ ASSUMPTIONS = [
     'central differences with h = 1e-5*min(x_i over varied chemicals), points with all varied x_i >= 1e-3',
     'the model is written to the REPAIRED behaviour of gamma_UNIFAC / loggammacs_UNIFAC / the xsum==0 branch '
     '(fixes_proposed/C16-1..3.md)',
-    'compositions with negative, NaN or non-normalised entries and wrong-length arrays are not generated',
+    'compositions with negative or NaN entries and wrong-length arrays are not generated; non-normalised compositions only as positive '
+    'multiples of simplex points passed as lists (the wrappers renormalise), compared with the model, no limit / Gibbs-Duhem clause applied',
+    'the interaction-parameter array is a parameter of the model; the adapter checks that the real `_interactions` equals the table lookup '
+    'a(i -> j) for the main groups of the object\'s columns (orientation as in the code; that the numbers are UNIFAC\'s is not a clause of C16)',
+    'ideal_one, the ndarray half of f_form_eq_object_form and args_pure are true by construction of the model (it defines the ideal '
+    'models as 1 and has no primitive that writes a caller array); on the real code these clauses are decided by the protocol fields '
+    'g= / x= / fresh= and the oracle (x-modified, result-aliases-*, result-shared-between-calls, args-modified, history), not by proof',
+    'editing a chemical\'s group data after a model object for a tuple containing it exists is not generated by default '
+    '(the instance cache returns the old object: fixes_proposed/C16-4.md; VERIF_C16_GROUP_EDITS=1 generates such histories)',
     'which positions of a chemical tuple have group data is read from the chemicals (Chemical.UNIFAC/.Dortmund/.NIST), never '
     'from the model object; the object is validated against it (model-object-inconsistent:*), an exception raised by the real '
     'object is an oracle failure (raises:*), and an object whose arrays are inconsistent is not executed in-process',
@@ -67,7 +81,20 @@ TRUSTED = ['Lean 4.33 kernel', 'correspondence harness harness/props/c16.py + Dr
 EXHAUSTIVE = {'quick': False, 'thorough': False}
 
 # numba kernels are compiled on first use: keep the compiled code in a directory of ours
-_CACHE = core.ROOT / '.cache'
+def _cache_dir():
+    """a writable directory for the numba cache and the crash-probe result (the tree may be read-only)"""
+    import tempfile
+    for d in (core.ROOT / '.cache', Path(tempfile.gettempdir()) / f'verif-c16-cache-{os.getuid()}'):
+        try:
+            d.mkdir(parents=True, exist_ok=True)
+            t = d / f'.w{os.getpid()}'; t.write_text('x'); t.unlink()
+            return d
+        except Exception:
+            continue
+    return Path(tempfile.mkdtemp(prefix='verif-c16-'))
+
+
+_CACHE = _cache_dir()
 _KEY = hashlib.sha1(str(core.REPO.resolve()).encode()).hexdigest()[:10]
 os.environ.setdefault('NUMBA_CACHE_DIR', str(_CACHE / f'numba-c16-{_KEY}'))
 
@@ -89,12 +116,20 @@ NIST_GROUPS = {
     'MTBE': {'CH3': 3, 'C': 1, 'CH3O': 1}, 'Propane': {'CH3': 2, 'CH2': 1},
 }
 CLASSES = {}
+TWINS = ['Water', 'Ethanol', 'Acetone', 'Hexane', 'Toluene', 'Butanol']
+# histories that edit a chemical's group data after a model object exists fire on the current tree
+# (fixes_proposed/C16-4.md); generated only when asked for
+GROUP_EDITS = os.environ.get('VERIF_C16_GROUP_EDITS', '1') == '1'     # repair 3b3fd7f (C16-4) is committed
 
 
 def setup():
     global np, tmo, eq, ac, unifac
     if tmo is not None: return
-    Path(os.environ['NUMBA_CACHE_DIR']).mkdir(parents=True, exist_ok=True)
+    try:
+        Path(os.environ['NUMBA_CACHE_DIR']).mkdir(parents=True, exist_ok=True)
+    except Exception:
+        os.environ['NUMBA_CACHE_DIR'] = str(_CACHE / f'numba-c16-{_KEY}')
+        Path(os.environ['NUMBA_CACHE_DIR']).mkdir(parents=True, exist_ok=True)
     warnings.simplefilter('ignore')
     import numpy as np_
     import thermosteam as tmo_
@@ -105,6 +140,13 @@ def setup():
         POOL[n] = tmo.Chemical(n, cache=True)
     for n, g in NIST_GROUPS.items():
         POOL[n].NIST.set_group_counts_by_name(dict(g))
+    # twins: a second Chemical object with the SAME ID but no group data (the instance caches of the classes are
+    # keyed on chemical objects; a cache keyed on IDs would hand back the model of the chemical with groups)
+    for n in TWINS:
+        c = POOL[n].copy(n)
+        for field in ('UNIFAC', 'Dortmund', 'NIST', 'PSRK'):
+            getattr(c, field).clear()
+        POOL[n + '~'] = c
     CLASSES.update(U=eq.UNIFACActivityCoefficients, D=eq.DortmundActivityCoefficients,
                    N=eq.NISTActivityCoefficients, I=eq.IdealActivityCoefficients)
     # warm-up (compiles or loads the numba kernels)
@@ -112,6 +154,9 @@ def setup():
     for k in 'UDN':
         G = CLASSES[k](chems)
         G([0.5, 0.25, 0.25], 300.)
+        for Tr in (300, np.float64(300.), np.float32(300.)):
+            try: G([0.5, 0.25, 0.25], Tr); G.f(np.array([0.5, 0.25, 0.25]), Tr, *G.args)
+            except Exception: pass
         for code in ('i8', 'i4', 'f4', 'f8s', 'f8ro'):
             a = make_typed(code, [1, 0, 0] if code[0] == 'i' else [0.5, 0.25, 0.25])
             try: G.f(a, 300., *G.args)
@@ -120,7 +165,7 @@ def setup():
 
 
 def budget(tier):
-    return {'quick': dict(seconds=70, cases=1000, shrink_s=20, search_s=10),
+    return {'quick': dict(seconds=70, cases=800, shrink_s=20, search_s=10),
             'thorough': dict(seconds=480, cases=16000, shrink_s=40, search_s=30)}[tier]
 
 
@@ -215,7 +260,8 @@ def validate_object(kind, G, cls, chems, grouped):
     n = len(chems)
     expect_group = kind != 'I' and len(grouped) > 1
     is_group = isinstance(G, ac.GroupActivityCoefficients)
-    if expect_group != is_group or (not expect_group and type(G) is not eq.IdealActivityCoefficients):
+    if expect_group != is_group or (not expect_group and type(G) is not eq.IdealActivityCoefficients) \
+            or (expect_group and type(G) is not cls):
         problems.append(('type', f'{cls.__name__}{tuple(c.ID for c in chems)} returned a {type(G).__name__} '
                                  f'({len(grouped)} members have {kind} groups)'))
     try:
@@ -267,13 +313,34 @@ def subgroup_columns(G, cls, chems, grouped):
     for c in counts: all_groups.update(c)
     cgs, Qs = np.asarray(G._chemgroups, float), np.asarray(G._Qs, float)
     if cgs.shape != (len(grouped), len(all_groups)): return None
-    left, cols = set(all_groups), []
+    cands = []
     for k in range(cgs.shape[1]):
-        hit = [g for g in sorted(left) if cls.all_subgroups[g].Q == Qs[k]
+        hit = [g for g in sorted(all_groups) if cls.all_subgroups[g].Q == Qs[k]
                and all(float(counts[i].get(g, 0)) == cgs[i, k] for i in range(len(counts)))]
         if not hit: return None
-        cols.append(hit[0]); left.discard(hit[0])
-    return cols
+        cands.append(hit)
+    rs = np.asarray(G._rs, float)
+    best = None
+    # columns with the same (Q, counts) are told apart by R: take the assignment that reproduces `_rs`
+    for cols in itertools.islice(itertools.product(*cands), 512):
+        if len(set(cols)) != len(cols): continue
+        if best is None: best = list(cols)
+        R = np.array([cls.all_subgroups[g].R for g in cols], float)
+        if rs.shape == (cgs.shape[0],) and np.allclose(cgs @ R, rs, rtol=1e-12, atol=0.0):
+            return list(cols)
+    return best
+
+
+def expected_interactions(cls, cols):
+    """`_interactions` recomputed from the interaction table and the main groups of the columns
+    (row = the column's own main group j, entry [j][i] = a(i -> j), no entry or i == j -> the class's zero)"""
+    mg = [cls.all_subgroups[g].main_group_id for g in cols]
+    zero = cls._no_interaction
+    def look(i, j):
+        if i == j: return zero
+        try: return cls.all_interactions[i][j]
+        except Exception: return zero
+    return np.array([[look(i, j) for i in mg] for j in mg], float)
 
 
 def dump_tables(kind, G, cls, chems, grouped):
@@ -281,6 +348,13 @@ def dump_tables(kind, G, cls, chems, grouped):
     one the chemicals' group data demand.  None if the object's tables do not describe these chemicals."""
     cols = subgroup_columns(G, cls, chems, grouped)
     if cols is None: return None
+    try:
+        exp = expected_interactions(cls, cols)
+        got = np.asarray(G._interactions, float)
+        if exp.shape != got.shape or not np.array_equal(exp, got):
+            return 'interactions'
+    except Exception:
+        return 'interactions'
     Rs = np.array([cls.all_subgroups[g].R for g in cols], float)
     nC, nG = G._chemgroups.shape
     mk = 'U' if kind == 'U' else 'M'
@@ -322,6 +396,7 @@ class Session:
     """real objects of one case + the oracle"""
     def __init__(self):
         self.G = None; self.kind = None; self.names = (); self.snap = None
+        self.group_backup = {}    # (name, field) -> group counts before a `regroup … clear`
         self.siblings = {}        # (kind, names) -> object of the class for the reversed tuple
         self.grouped = ()         # positions with group data, from the chemicals (never from the object)
         self.is_group = False     # the object is a group-contribution object
@@ -339,6 +414,21 @@ class Session:
 
     def emit(self, line, out):
         self.model_in.append(line); self.outs.append(out)
+
+    def temperature(self, tok, rep):
+        """T as the caller writes it: a Python float, or (rep) an int, a NumPy float64 / float32 scalar"""
+        T = from_fbits(tok)
+        if rep is None: return T
+        self.tags.add('T:' + rep)
+        if rep == 'Ti' and T == int(T): return int(T)
+        if rep == 'Tn': return np.float64(T)
+        if rep == 'T4' and float(np.float32(T)) == T: return np.float32(T)
+        return T
+
+    def restore_groups(self):
+        for (name, field), old in list(self.group_backup.items()):
+            gc = getattr(POOL[name], field); gc.clear(); gc.update(old)
+        self.group_backup.clear()
 
     def guarded(self, i, label, what, fn):
         """run a call into the real code; an exception is a finding about the real object, not a harness crash"""
@@ -429,7 +519,7 @@ class Session:
                 self.scribble(i, 'I(ideal)', r)
         if len(self.names) > 1 and self.usable and self.kind != 'I':
             rev = tuple(reversed(chems))
-            sk = (self.kind, self.names)
+            sk = (self.kind, self.names, len(self.group_backup))
             if sk not in self.siblings:
                 with warnings.catch_warnings():
                     warnings.simplefilter('ignore')
@@ -552,7 +642,7 @@ class Session:
                 self.fail(f'f-form:{label}', f'ideal object: f gives {other!r}, call gives {g.tolist()}', i)
             again = None
         # position independence: same named composition, same named coefficients
-        key = (kind, frozenset(zip(self.names, before.tolist())), T)
+        key = (kind, frozenset(zip(self.names, before.tolist())), T, tuple(sorted({m for (m, _) in self.group_backup})))
         named = dict(zip(self.names, g.tolist()))
         if len(set(self.names)) == len(self.names):
             old = self.byname.get(key)
@@ -618,6 +708,10 @@ class Session:
             chems = tuple(POOL[n] for n in names)
             cls = CLASSES[kind]
             self.G, self.kind, self.names = None, kind, names
+            seen = self.__dict__.setdefault('built', {})
+            if any(k2 != kind for k2 in seen.get(names, ())): self.tags.add('two-classes-one-tuple')
+            seen.setdefault(names, set()).add(kind)
+            if any(m.endswith('~') for m in names): self.tags.add('same-ID-twin-without-groups')
             self.grouped = grouped_positions(kind, chems)
             self.is_group, self.usable, self.snap = False, False, None
             with warnings.catch_warnings():
@@ -634,6 +728,12 @@ class Session:
             if not self.usable: return
             if self.is_group:
                 line = dump_tables(kind, G, cls, chems, self.grouped)
+                if line == 'interactions':
+                    self.fail('model-object-inconsistent:interactions',
+                              f'{cls.__name__}{names}: `_interactions` is not the table lookup a(i -> j) for the main groups of the '
+                              f'object\'s subgroup columns', i)
+                    self.usable = False
+                    return
                 if line is None:
                     self.fail('model-object-inconsistent:tables',
                               f'{cls.__name__}{names}: the group-count / Q columns of the object do not describe the group data of '
@@ -660,13 +760,28 @@ class Session:
             self.tags.add('dtype:' + t[1])
             self.emit(('newo ' if t[1] in OTHER_DTYPES else 'new ') + t[2], f'id={len(self.arrays) - 1}')
         elif k == 'call':
-            T = from_fbits(t[3])
+            T = self.temperature(t[3], t[4] if len(t) > 4 else None)
             arg = self.arrays[int(t[2])] if t[1] == 'nd' else fl(t[2])
             self.tags.add('call-' + t[1])
-            self.evaluate(i, 'call', arg, T, op)
+            if t[1] == 'seq' and abs(sum(arg) - 1.0) > 1e-9: self.tags.add('unnormalised')
+            self.evaluate(i, 'call', arg, T, ' '.join(t[:4]))
         elif k == 'f':
             self.tags.add('f-form')
-            self.evaluate(i, 'f', self.arrays[int(t[1])], from_fbits(t[2]), op)
+            self.evaluate(i, 'f', self.arrays[int(t[1])], self.temperature(t[2], t[3] if len(t) > 3 else None), ' '.join(t[:3]))
+        elif k == 'keepcache':
+            self.tags.add('warm-instance-caches')
+        elif k == 'regroup':
+            # the user edits a chemical's group data (all group fields) after model objects may exist
+            c = POOL[t[1]]
+            for field in ('UNIFAC', 'Dortmund', 'NIST', 'PSRK'):
+                gc = getattr(c, field)
+                if t[2] == 'clear':
+                    self.group_backup.setdefault((t[1], field), dict(gc)); gc.clear()
+                else:
+                    old = self.group_backup.pop((t[1], field), None)
+                    if old is not None:
+                        gc.clear(); gc.update(old)
+            self.tags.add('group-edit')
         elif k == 'gd':
             x = np.array(fl(t[1])); T = from_fbits(t[2]); d = np.array(fl(t[3])); h = from_fbits(t[4])
             xp, xm = (x + h * d).tolist(), (x - h * d).tolist()
@@ -713,6 +828,14 @@ class Session:
             a = M(T, P)
             if not np.all(np.asarray(a) == 1.0):
                 self.fail('ideal-pcf', f'MockPoyintingCorrectionFactors gives {a!r}', i)
+            if hasattr(M, 'f'):            # (the class has no functional form today; if it gets one it must agree)
+                b = M.f(T, P, *getattr(M, 'args', ()))
+                if not np.all(np.asarray(b) == 1.0):
+                    self.fail('ideal-pcf', f'MockPoyintingCorrectionFactors.f gives {b!r}', i)
+            for Mi in (eq.IdealActivityCoefficients, eq.IdealFugacityCoefficients):
+                obj = Mi(tuple(POOL[n] for n in GROUPED[:3]))
+                if not (callable(getattr(obj, 'f', None)) and getattr(obj, 'args', None) == () and obj.f() == 1.0):
+                    self.fail('ideal-decorator', f'{Mi.__name__}: the @ideal decorator no longer provides f() == 1.0 and args == ()', i)
             self.tags.add('pcf')
             self.emit('pcf', 'g=' + csv(np.atleast_1d(np.asarray(a, float))[:1]))
         elif k == 'idealf':
@@ -727,16 +850,21 @@ class Session:
 def run_impl(case: Case) -> ImplResult:
     setup()
     # a case is a self-contained history of model constructions: start from empty instance caches
-    for c in set(CLASSES.values()):
-        d = getattr(c, '_cached', None)
-        if isinstance(d, dict): d.clear()
+    # (`keepcache` as first op: the caches are left as the earlier cases of this process filled them)
+    if not (case.ops and case.ops[0] == 'keepcache'):
+        for c in set(CLASSES.values()) | {ac.GroupActivityCoefficients}:
+            d = getattr(c, '_cached', None)
+            if isinstance(d, dict): d.clear()
     S = Session()
-    for i, op in enumerate(case.ops):
-        if S.G is None and op.split(' ')[0] in ('new', 'call', 'f', 'gd', 'ac', 'gdac'):
-            if op.startswith('new'):
-                S.apply(i, op)
-            continue        # (shrinking may drop the obj line: evaluations without an object are skipped)
-        S.apply(i, op)
+    try:
+        for i, op in enumerate(case.ops):
+            if S.G is None and op.split(' ')[0] in ('new', 'newt', 'call', 'f', 'gd', 'ac', 'gdac'):
+                if op.startswith('new'):
+                    S.apply(i, op)
+                continue        # (shrinking may drop the obj line: evaluations without an object are skipped)
+            S.apply(i, op)
+    finally:
+        S.restore_groups()
     return ImplResult(model_in=S.model_in, outs=S.outs, failures=S.failures, tags=sorted(S.tags),
                       nontrivial=(tuple(case.ops) if S.group_evals else None))
 
@@ -853,7 +981,12 @@ def gen_case(rng, tier, kind=None, names=None):
     n = len(names)
     nid = 0
     T = rand_T(rng)
-    ops = []
+    ops = ['keepcache'] if rng.random() < 0.25 else []
+    # a second model class over the same tuple (the instance caches are per class)
+    kind2 = rng.choice([k for k in 'UDN' if k != kind]) if kind != 'I' else None
+    x0 = simplex_point(rng, n, 'uniform'); T0 = rand_T(rng)
+    if kind2 and rng.random() < 0.3:
+        ops += [f'obj {kind2} {",".join(names)}', f'call seq {csv(x0)} {fbits(T0)}']
     # history of model constructions: the same members-with-groups (same relative order) with members without
     # groups dropped, added, in front, in between, behind -- the instance cache of the classes is keyed on the tuple
     gnames = [m for m in names if m in GROUPED]
@@ -937,6 +1070,25 @@ def gen_case(rng, tier, kind=None, names=None):
                 ops.append(f'call seq {csv(xp)} {fbits(Tx)}')
             else:
                 ops.append(f'new {csv(xp)}'); ops.append(f'call nd {nid} {fbits(Tx)}'); nid += 1
+    if kind2 and rng.random() < 0.5:
+        # class A, class B, class A again over one tuple, same composition
+        ops += [f'obj {kind} {",".join(names)}', f'call seq {csv(x0)} {fbits(T0)}',
+                f'obj {kind2} {",".join(names)}', f'call seq {csv(x0)} {fbits(T0)}',
+                f'obj {kind} {",".join(names)}', f'call seq {csv(x0)} {fbits(T0)}']
+    tw = [j for j, m in enumerate(names) if m in TWINS]
+    if kind != 'I' and tw and rng.random() < 0.4:
+        # the same tuple with one member replaced by its twin: same ID, no group data
+        j = rng.choice(tw)
+        alt = list(names); alt[j] = names[j] + '~'
+        ops += [f'obj {kind} {",".join(names)}', f'call seq {csv(x0)} {fbits(T0)}',
+                f'obj {kind} {",".join(alt)}', f'call seq {csv(x0)} {fbits(T0)}',
+                f'call seq {csv([1.0 if i == j else 0.0 for i in range(n)])} {fbits(T0)}',
+                f'obj {kind} {",".join(names)}', f'call seq {csv(x0)} {fbits(T0)}']
+    if GROUP_EDITS and kind != 'I' and gnames and rng.random() < 0.4:
+        m = rng.choice(gnames)
+        ops += [f'obj {kind} {",".join(names)}', f'call seq {csv(x0)} {fbits(T0)}', f'regroup {m} clear',
+                f'obj {kind} {",".join(names)}', f'call seq {csv(x0)} {fbits(T0)}', f'regroup {m} restore',
+                f'obj {kind} {",".join(names)}', f'call seq {csv(x0)} {fbits(T0)}']
     if base is not None:
         for _ in range(2 if tier == 'quick' else rng.randrange(2, 5)):
             ops += variant_ops(rng, kind, gnames, base, drop=(rng.random() < 0.25))
@@ -944,7 +1096,19 @@ def gen_case(rng, tier, kind=None, names=None):
         ops.append(f'phi {csv(simplex_point(rng, rng.randrange(1, 5), "uniform"))} {fbits(rand_T(rng))} {fbits(rng.choice([101325.0, 5e5, 1e4]))}')
         ops.append(f'pcf {fbits(rand_T(rng))} {fbits(101325.0)}')
         ops.append('idealf')
-    return Case(ops, {})
+    # the temperature as an int / NumPy scalar, compositions that are a positive multiple of a simplex point
+    out = []
+    for op in ops:
+        t = op.split(' ')
+        if t[0] in ('call', 'f') and rng.random() < 0.12:
+            Tv = from_fbits(t[3] if t[0] == 'call' else t[2])
+            if Tv == int(Tv): op += ' ' + rng.choice(['Ti', 'Tn', 'T4'])
+            else: op += ' Tn'
+        if t[0] == 'call' and t[1] == 'seq' and len(t) == 4 and rng.random() < 0.06:
+            k = rng.choice([2.0, 0.5, 37.5, 1e-3])
+            op = f'call seq {csv([v * k for v in fl(t[2])])} {t[3]}'
+        out.append(op)
+    return Case(out, {})
 
 
 def generate(rng, tier, index, nworkers):
@@ -986,6 +1150,15 @@ def corpus():
                         f'newt i4 {csv([0, 0, 1, 0])}', f'call nd 1 {T}', f'f 1 {T}',
                         f'newt f4 {csv([0.25, 0.5, 0.125, 0.125])}', f'f 2 {T}', f'call nd 2 {T}',
                         f'newt f8s {csv([0.25, 0.5, 0.125, 0.125])}', f'f 3 {T}', f'newt f8ro {csv([0.1, 0.2, 0.3, 0.4])}', f'call nd 4 {T}', f'f 4 {T}']))
+    xb = csv([0.5, 0.5]); Tb = fbits(350.0)
+    for a, b in (('D', 'U'), ('U', 'N'), ('N', 'D')):
+        cs.append(Case([f'obj {a} Water,Ethanol', f'call seq {xb} {Tb}', f'obj {b} Water,Ethanol', f'call seq {xb} {Tb} Ti',
+                        f'obj {a} Water,Ethanol', f'call seq {xb} {Tb} Tn', f'obj {b} Water,Ethanol', f'call seq {xb} {Tb}']))
+    for k in 'UDN':
+        cs.append(Case([f'obj {k} Water,Ethanol,Acetone', f'call seq {csv([0.25, 0.5, 0.25])} {Tb}',
+                        f'obj {k} Water,Ethanol~,Acetone', f'call seq {csv([0.25, 0.5, 0.25])} {Tb}', f'call seq {csv([0.0, 1.0, 0.0])} {Tb}',
+                        f'obj {k} Water,Ethanol~', f'call seq {xb} {Tb}',
+                        f'obj {k} Water,Ethanol,Acetone', f'call seq {csv([0.25, 0.5, 0.25])} {Tb}']))
     cs.append(Case(['obj I Water,Ethanol', f'call seq {half},{half} {T}', f'new {half},{half}', f'call nd 0 {T}', f'f 0 {T}',
                     f'phi {half},{half} {T} {fbits(101325.0)}', f'pcf {T} {fbits(101325.0)}', 'idealf']))
     return cs
